@@ -16,7 +16,7 @@
 (* slice | wrap | wrapn | drop | drop_many                                 *)
 (* (handles dropped concurrently by several real threads; logged after the *)
 (* join) | into_mutable | into_vec | unary_mut | into_builder |            *)
-(* try_unary_mut | try_unary_mut_err | xor | claim | export | import |      *)
+(* try_unary_mut | try_unary_mut_err | xor | shrink | claim | export | import |      *)
 (* stream_export | stream_next.                                            *)
 (***************************************************************************)
 EXTENDS Ownership, TraceBase
@@ -47,6 +47,7 @@ After(ev) ==
     [] ev.op \in ArrayOps     -> IF ev.ok THEN ArrayMutate(st, ev.x, ev.op = "try_unary_mut", ev.size) ELSE ArrayDecline(st, ev.x, ev.nr, ev.nsize)
     [] ev.op = "try_unary_mut_err" -> IF ev.ok THEN Drop(st, ev.x) ELSE ArrayDecline(st, ev.x, ev.nr, ev.nsize)
     [] ev.op = "xor"     -> IF ev.same THEN XorInPlace(st, ev.x) ELSE XorCopy(st, ev.x, ev.nr, ev.size)
+    [] ev.op = "shrink"  -> ShrinkToFit(st, ev.x)
     [] ev.op = "claim"   -> Claim(st, ev.x)
     [] ev.op = "export"  -> Export(st, ev.x, ev.e, ev.nr)
     [] ev.op = "import"  -> Import(st, ev.e)
@@ -65,7 +66,7 @@ Enabled(ev) ==
     [] ev.op = "wrapn"   -> ev.x \in Live(st.hd) /\ ev.xn \in Live(st.hd) /\ FreshHandle(st, ev.y) /\ CanWrapN(st, ev.x, ev.xn)
     [] ev.op = "drop"    -> ev.x \in Live(st.hd)
     [] ev.op = "drop_many" -> \A i \in 1..Len(ev.xs) : ev.xs[i] \in Live(st.hd)
-    [] ev.op \in {"into_mutable", "into_vec", "xor"} -> ev.x \in Live(st.hd) /\ st.hd[ev.x].kind = "buffer"
+    [] ev.op \in {"into_mutable", "into_vec", "xor", "shrink"} -> ev.x \in Live(st.hd) /\ st.hd[ev.x].kind = "buffer"
     [] ev.op \in ArrayOps \cup {"try_unary_mut_err"} ->
          /\ ev.x \in Live(st.hd) /\ st.hd[ev.x].kind = "array" /\ ~st.hd[ev.x].nested
          /\ ((~ev.ok /\ NeedsNullCopy(st, ev.x)) => FreshRegion(st, ev.nr))
@@ -87,6 +88,7 @@ RuleOK(ev) ==
     [] ev.op \in ArrayOps     -> (ev.ok => ArrayInPlaceOK(st, ev.x)) /\ (~ev.ok => ev.same)
     [] ev.op = "try_unary_mut_err" -> (ev.ok => ArrayInPlaceOK(st, ev.x))
     [] ev.op = "xor"          -> (ev.same => BufferInPlaceOK(st, ev.x))
+    [] ev.op = "shrink"       -> ev.size = ShrinkToFit(st, ev.x).rg[st.hd[ev.x].refs[1]].size    \* capacity afterwards
     [] ev.op = "import"       -> ev.srel = 1          \* the schema struct is released exactly once when dropped
     [] ev.op = "stream_next"  -> /\ ev.got = CanStreamNext(st, ev.s)      \* one batch, then end of stream
                                  /\ ev.sc = 0                             \* the stream itself is not released by get_next
